@@ -9,6 +9,9 @@ CHECKS = {
  "C01": ("exploration", "reference-model monitor: independent tree oracle + trace-specification check of the patch stream over generated build pairs; race detector and ASan passes (thorough)",
          "Every generated (old,new) pair is diffed and applied by the real code under 3 of the 25 compression settings (all 25 occur in each run) and the output directory is compared entry by entry with the new build by an oracle that never goes through wharf; the patch bytes are re-parsed by an independent decoder against the framing grammar. Held-on-N-executions, not a proof.",
          "Trusted: protobuf runtime + generated message types (shared with wharf), tlc.WalkAny (cross-checked per case against an independent walk), the Go standard library gzip and the C brotli decoder used by the independent stream reader.", "§5 C01"),
+ "C02": ("exploration", "invariant monitor (inode/mtime/checksum snapshots before Resume vs before Commit) + independent tree oracle + three-way agreement with fresh application; commit operation sequences recorded from BOWL_OVERLAY_VERBOSE event log across repeated commits",
+         "Each generated pair (weighted to renames, swaps, chains, duplicates, patched-and-renamed files, kind swaps) is applied in place through the overlay bowl several times from identical starting states with plain and optimized patches; the directory must be bit-for-bit untouched (inode, mtime, size, checksum) until Commit and equal to the new build afterwards. Map-iteration orders of the commit phase are sampled by repetition and the distinct operation sequences observed are counted. Four kind-swap classes are recorded as known findings.",
+         "Trusted: file-system timestamps/inodes on the scratch tmpfs; the fresh-bowl result is cross-checked against the in-memory new build, not assumed.", "§5 C02"),
 }
 PENDING = {}
 
